@@ -878,3 +878,37 @@ def a12_guard_reads_the_parameter(ctx) -> None:
                           "question is asked of that empty rule, and the remaining empty children get no rule")
         else:
             ctx.ok("A12", f"`{r}.possibly_empty` is asked of the rule passed in, before the loop re-binds the name")
+
+
+def a13_add_rule_bookkeeping(ctx) -> None:
+    """`add_rule` does four things for every child of a rule, each under the one flag of the
+    rule that governs it and nothing else: queue it (workable), mark it not inferrable
+    (inferrable), record non-emptiness (possibly_empty), try to verify it (always).  In
+    particular whether a child is queued does not depend on what the database knows about it at
+    that moment: a class that is verified now is still expanded when a later caller (the
+    fall-back with reverse rules of expand_verified, a search continued after more rules) needs
+    what lies below it."""
+    P = ctx.P
+    m = P.need_method("CombinatorialSpecificationSearcher", "add_rule", own=True)
+    f = m.node
+    ctx.analysed(m)
+    rule_p = m.params()[3] if len(m.params()) > 3 else "rule"
+    want = {
+        "self.classqueue.add": {(f"{rule_p}.workable", True)},
+        "self.classqueue.set_not_inferrable": {(f"{rule_p}.inferrable", False)},
+        "self.try_verify": set(),
+    }
+    loops = [l for l in walk_local(f) if isinstance(l, ast.For)]
+    for name, guards in want.items():
+        calls = [c for c in walk_local(f) if isinstance(c, ast.Call) and norm(c.func) == name]
+        if not calls:
+            ctx.violation("A13", f, f"add_rule no longer calls {name} for the children of the rule", construct=f"add_rule {name}")
+            continue
+        for c in calls:
+            gs = {(norm(t), p_) for t, p_ in C.flatten_guards(C.guards(f, c, within=loops[0] if loops and any(c is x for x in ast.walk(loops[0])) else None))}
+            if gs == guards:
+                ctx.ok("A13", f"add_rule: {name} under exactly {sorted(t for t, _ in guards) or 'no condition'}")
+            else:
+                extra = sorted(t for t, _p in gs - guards)
+                ctx.violation("A13", c, f"add_rule calls {name} under {sorted(t for t, _ in gs) or 'no condition'} instead of {sorted(t for t, _ in guards) or 'no condition'}"
+                              + (f": `{extra[0][:50]}` makes the child's treatment depend on what is known about it right now" if extra else ""))
